@@ -26,6 +26,9 @@ instance (h : Header) (max : Int) : Decidable (Valid h max) := by unfold Valid; 
 def acceptable (bs : Bytes) (h : Header) (max : Int) : Bool :=
   decide (Valid h max) && decide (HeaderSize ≤ bs.length) && (bs.take HeaderSize == encodeHeader h)
 
+def kvNat (key tok : String) : Option Nat :=
+  if tok.startsWith (key ++ "=") then (tok.drop (key.length + 1)).toString.toNat? else none
+
 /-! ### frame level (reader.go / writer.go), hand model, D-tied -/
 
 inductive RErr
@@ -67,5 +70,97 @@ def writeFrame (h : Header) (body : Bytes) (max : Int) : Except Err Bytes :=
   if !(priorityValid h'.priority) then .error .invalidPriority else
   if bodyExceedsMax h'.bodyLen max then .error .msgTooLarge else
   .ok (encodeHeader h' ++ body)
+
+/-! ### Part 2 — trace acceptor for one concurrent PendingTable scenario
+
+  The harness reports, for every caller, what it finally observed (facts established after all
+  completer / canceller / FailAll goroutines have returned — nothing depends on timing):
+    c<id>=<outcome>/<number of Complete(id) calls that returned true>/<their nonces>/<phase>
+  The acceptor is the property itself on those observations:
+    own_response       a delivered response carries the caller's own id and the nonce of THE
+                       Complete(id) call that reported success
+    at_most_one        no second message ever shows up in a caller's channel; at most one
+                       Complete(id) reports success
+    fail_all_terminal  after FailAll every caller that was not served and did not give up holds
+                       one of the FailAll errors, callers that stored after a FailAll returned all
+                       hold the same (first) error, and the table is empty
+    no loss            a successful Complete(id) is observed by the caller unless it gave up
+-/
+
+structure CallerObs where
+  id : Nat
+  outcome : String      -- r<tag>.<nonce> | e1 | e2 | 0 | x | x+<late>
+  trueCompletes : Nat
+  nonces : List Nat
+  phase : String
+  deriving Repr
+
+def parseResp (s : String) : Option (Nat × Nat) :=
+  if s.startsWith "r" then
+    match ((s.drop 1).toString.splitOn ".").map String.toNat? with
+    | [some t, some n] => some (t, n)
+    | _ => none
+  else none
+
+def parseCaller (tok : String) : Option CallerObs :=
+  match tok.splitOn "=" with
+  | [cid, rest] =>
+    if !cid.startsWith "c" then none else
+    match (cid.drop 1).toString.toNat?, rest.splitOn "/" with
+    | some id, [out, k, ns, ph] =>
+      match k.toNat? with
+      | some k =>
+        let nonces := if ns == "-" then some [] else (ns.splitOn ",").mapM String.toNat?
+        nonces.map (fun ns => ⟨id, out, k, ns, ph⟩)
+      | none => none
+    | _, _ => none
+  | _ => none
+
+def isErr (s : String) : Bool := s == "e1" || s == "e2"
+
+/-- verdict for one caller given whether any FailAll ran -/
+def judgeCaller (fa : Nat) (o : CallerObs) : String :=
+  if (o.outcome.splitOn "+dup").length > 1 then "viol:second-response-delivered" else
+  if o.trueCompletes > 1 || o.nonces.length != o.trueCompletes then "viol:complete-succeeded-twice" else
+  let gaveUp := o.outcome.startsWith "x"
+  let late := if o.outcome.startsWith "x+" then (o.outcome.drop 2).toString else ""
+  let seen := if gaveUp then late else o.outcome      -- what was delivered to the channel ("" / "0" = nothing)
+  -- own_response
+  match parseResp seen with
+  | some (tag, nonce) =>
+    if tag != o.id then "viol:foreign-response" else
+    if o.nonces != [nonce] then "viol:response-without-successful-complete" else "ok"
+  | none =>
+    if seen.startsWith "r" then "viol:unparseable-output" else
+    if isErr seen then
+      (if fa == 0 then "viol:error-without-failall" else
+       if o.trueCompletes != 0 then "viol:completed-response-lost" else "ok")
+    else if seen == "e?" then "viol:unknown-error-delivered"
+    else if seen == "" || seen == "0" then
+      -- nothing was delivered
+      if o.trueCompletes != 0 then "viol:completed-response-lost"
+      else if gaveUp then "ok"
+      else if fa != 0 then "viol:failall-left-caller-without-error"
+      else "ok"
+    else "viol:unparseable-output"
+
+def judgePend (impl : String) : String :=
+  match fields impl with
+  | lenTok :: faTok :: callers =>
+    match kvNat "len" lenTok, kvNat "fa" faTok, callers.mapM parseCaller with
+    | some len, some fa, some obs =>
+      match (obs.map (judgeCaller fa)).find? (· != "ok") with
+      | some v => v
+      | none =>
+        -- callers that stored after a FailAll had returned all see the same closeErr
+        let after := (obs.filter (fun o => o.phase == "a" && isErr o.outcome)).map (·.outcome)
+        if after.any (fun e => some e != after.head?) then "viol:close-error-not-stable" else
+        -- table size at the end: 0 after FailAll, otherwise the callers still waiting with an entry
+        let waiting := (obs.filter (fun o => o.outcome == "0")).length
+        if fa != 0 && len != 0 then "viol:failall-left-entries"
+        else if fa == 0 && len != waiting then "viol:table-size-mismatch"
+        else "ok"
+    | _, _, _ => "viol:unparseable-output"
+  | _ => "viol:unparseable-output"
 
 end WK.C26
